@@ -15,7 +15,10 @@ PROP = dict(
           "it MarkCloseConfirmationHeight / ResetCloseConfirmationHeight are called at generated points on every channel "
           "and, on the third of the channels that carry the zero-conf bits, MarkConfirmationHeight and MarkRealScid (then "
           "the link's handle is refreshed from disk as lnd does); such a write must change nothing but its own field: all "
-          "oracles above apply to what is on disk afterwards. "
+          "oracles above apply to what is on disk afterwards. Transaction retries: in a quarter of the cases every database "
+          "write transaction of both sides runs its closure twice (the first execution is rolled back and the reset callback "
+          "called), which is what lnd's SQL-backed and etcd kvdb backends do on a serialisation conflict; what is committed "
+          "must be what a single execution commits. "
           "Non-trivial = a schedule in which a crash point was checked with a pending remote commitment and with "
           "unsigned-acked or remote-unsigned-local updates. counters.crash_points_checked is the number of (side, "
           "instant) reloads verified. Distinct = distinct (parameters, trace)."),
